@@ -12,7 +12,7 @@ PROP = {
 CLAIM = {
     "engine": "mirrorsim",
     "technique": "stateful property-based testing (rapid op lists in testing/synctest bubbles) with independent certificate re-verification (crypto/ed25519 + math/big) at every commit event",
-    "text": "Generated adversarial histories (the harness owns all validator keys) are run against one real tmmirror.Mirror; whenever a header becomes the committing header, is written to the committed-header store, is accepted through replay or is handed to the state machine, every precommit signature the node holds for that height/hash is re-verified per round under the validator set the chain prescribes and the distinct signers' power must exceed two thirds. The driver clause (FinalizeBlockRequest backed by a certificate) is checked in netsim (C03 unit, clause c01-driver-cert).",
+    "text": "Generated adversarial histories (the harness owns all validator keys) are run against one real tmmirror.Mirror; whenever a header becomes the committing header, is written to the committed-header store, is accepted through replay or is handed to the state machine, the committed header's content must hash to the certified block hash and every precommit signature the node holds for that height/hash is re-verified per round under the validator set the chain prescribes and the distinct signers' power must exceed two thirds. The driver clause (FinalizeBlockRequest backed by a certificate) is checked in netsim (C03 unit, clause c01-driver-cert).",
     "design_ref": "DESIGN.md section 4 C01, section 3.1",
     "note": "Exploration only; known crash findings (C09-*) are excluded by construction; BLS scheme not exercised here.",
 }
